@@ -1,5 +1,5 @@
 """Rule registry: name -> callable(ctx, prop) -> RuleResult | [RuleResult]."""
-from . import trav, exh, backend, names, fields, compiler, memory, purity, determinism, patterns, unify, provenance, simplify
+from . import trav, exh, backend, names, fields, compiler, memory, purity, determinism, patterns, unify, provenance, simplify, frontend
 
 
 def _trav_scoped(classes, name):
@@ -21,6 +21,7 @@ RULES = {
     "TRAV@C09": _trav_scoped(TRAV_C09, "TRAV"),
     "TRAV@C15": _trav_scoped(TRAV_C15, "TRAV"),
     "TRAV@C12": _trav_scoped(["DoSimplify", "_DoNormalize"], "TRAV"),
+    "TRAV@C03": _trav_scoped(["_Check_Aliasing_Helper"], "TRAV"),
     "TRAV@C05": _trav_scoped(["_Find_Mod_Div_Symbols"], "TRAV"),
     "TRAVBASE": trav.rule_travbase,
     "BYPASS": trav.rule_bypass,
@@ -53,6 +54,10 @@ RULES = {
     "REPLSCOPE": unify.rule_replscope,
     "CALLPRED": unify.rule_callpred,
     "HOLESIB": unify.rule_holesib,
+    "FRONTPIPE": frontend.rule_frontpipe,
+    "OBLIG": frontend.rule_oblig,
+    "BOUNDFORM": frontend.rule_boundform,
+    "WINALIAS@bounds": frontend.rule_winalias_bounds,
     "NAMECONF": simplify.rule_nameconf,
     "DELGUARD": simplify.rule_delguard,
     "CFGMOD": provenance.rule_cfgmod,
